@@ -136,6 +136,23 @@ Section FoldRes.
       + rewrite fold_res_err in H; discriminate.
       + rewrite fold_res_panic in H; discriminate.
   Qed.
+
+  Lemma fold_res_inv2 (Inv : list B -> A -> Prop) l : forall pre a0 a,
+    Inv pre a0 ->
+    (forall pre' b suf a1 a2, pre ++ l = pre' ++ b :: suf -> Inv pre' a1 -> step (Ok a1) b = Ok a2 -> Inv (pre' ++ [b]) a2) ->
+    fold_left step l (Ok a0) = Ok a -> Inv (pre ++ l) a.
+  Proof.
+    induction l as [|b r IH]; simpl; intros pre a0 a H0 Hs H.
+    - inversion H; subst. rewrite app_nil_r; auto.
+    - destruct (step (Ok a0) b) as [a1| |] eqn:S.
+      + replace (pre ++ b :: r) with ((pre ++ [b]) ++ r) in * by (rewrite <- app_assoc; reflexivity).
+        apply (IH (pre ++ [b]) a1 a).
+        * eapply Hs; eauto. rewrite <- app_assoc; reflexivity.
+        * intros pre' b' suf a1' a2' Heq Hi Hst. eapply Hs; eauto.
+        * exact H.
+      + rewrite fold_res_err in H; discriminate.
+      + rewrite fold_res_panic in H; discriminate.
+  Qed.
 End FoldRes.
 
 Section FoldOpt.
@@ -749,3 +766,357 @@ Section LitConform.
         lnn_case IHt H U' ld.
   Qed.
 End LitConform.
+
+(** ** the two top-level functions *)
+Lemma closed_usage_ok fx E defs : forall l e ld, lit_vars l = [] -> usage_ok fx E defs l e ld = true.
+Proof.
+  induction l as [n|z|m k|s|b| |n|vs IHl|fs IHf] using lit_ind'; intros e ld C; simpl in *; auto; try discriminate.
+  - apply forallb_forall. intros x Hx. rewrite Forall_forall in IHl. apply IHl; auto.
+    destruct (lit_vars x) eqn:Lx; auto. exfalso.
+    assert (In n (flat_map lit_vars vs)) by (apply in_flat_map; exists x; split; auto; rewrite Lx; left; auto).
+    rewrite C in H. contradiction.
+  - apply forallb_forall. intros [k x] Hx. rewrite Forall_forall in IHf.
+    assert (Lx : lit_vars x = []).
+    { destruct (lit_vars x) eqn:Lx; auto. exfalso.
+      assert (In n (flat_map (fun p : name * lit => lit_vars (snd p)) fs))
+        by (apply in_flat_map; exists (k, x); split; auto; simpl; rewrite Lx; left; auto).
+      rewrite C in H. contradiction. }
+    simpl. destruct (aget k _); apply (IHf (k, x) Hx); auto.
+Qed.
+
+Lemma find_def_nodup defs def :
+  has_dup (map vd_name defs) = false -> In def defs -> find_def (vd_name def) defs = Some def.
+Proof.
+  unfold find_def. induction defs as [|d r IH]; simpl; intros D []; subst.
+  - rewrite bytes_eqb_refl; reflexivity.
+  - apply orb_false_iff in D as [D1 D2].
+    destruct (bytes_eqb (vd_name def) (vd_name d)) eqn:B.
+    + apply bytes_eqb_eq in B. exfalso.
+      assert (X : existsb (bytes_eqb (vd_name d)) (map vd_name r) = true).
+      { apply existsb_exists. exists (vd_name def). split; [apply in_map; auto|]. rewrite B. apply bytes_eqb_refl. }
+      congruence.
+    + apply IH; auto.
+Qed.
+
+Lemma nodup_prefix {A} (pre : list (name * A)) x suf :
+  has_dup (map fst (pre ++ x :: suf)) = false -> forall y, In y pre -> fst y <> fst x.
+Proof.
+  induction pre as [|p r IH]; simpl; intros D y []; subst.
+  - apply orb_false_iff in D as [D _]. intro Eq.
+    assert (X : existsb (bytes_eqb (fst y)) (map fst (r ++ x :: suf)) = true).
+    { apply existsb_exists. exists (fst x). split; [apply in_map; apply in_or_app; right; left; auto|].
+      rewrite Eq; apply bytes_eqb_refl. }
+    congruence.
+  - apply orb_false_iff in D as [_ D]. eapply IH; eauto.
+Qed.
+
+Lemma aget_fold_mset {A} (args : list (name * A)) : forall m0 k v,
+  aget k (fold_left (fun m (a : name * A) => mset (fst a) (snd a) m) args m0) = Some v ->
+  In (k, v) args \/ aget k m0 = Some v.
+Proof.
+  induction args as [|[k' v'] r IH]; simpl; intros m0 k v H; auto.
+  apply IH in H as [H|H]; auto. rewrite aget_mset in H.
+  destruct (bytes_eqb k k') eqn:B; auto. apply bytes_eqb_eq in B; subst. inversion H; subst. left; left; reflexivity.
+Qed.
+
+Section TopLevel.
+  Variable fx : fixes.
+  Variable E : env.
+  Variable dt : bytes -> option bytes.
+  Hypothesis HE : env_ok E = true.
+  Hypothesis Hfix : fix_null_var fx = true.
+  Hypothesis Hio : fix_item_object fx = true.
+
+  Lemma variable_values_ok defs raw vv :
+    has_dup (map vd_name defs) = false ->
+    (forall def dflt, In def defs -> vd_default def = Some dflt -> lit_vars dflt = []) ->
+    (forall p, In p raw -> jval_ok (snd p) = true) ->
+    coerce_variable_values fx E dt defs raw = Ok vv -> vv_ok E defs vv.
+  Proof.
+    intros Hd Hc Hr H. unfold coerce_variable_values in H.
+    set (Inv := fun (done : list vardef) (m : cvars) =>
+                  forall n g, aget n m = Some g -> exists def, In def done /\ vd_name def = n /\ conforms E g (vd_type def) = true).
+    assert (I : Inv ([] ++ defs) vv).
+    { eapply (fold_res_inv _ (fun _ => eq_refl) (fun _ => eq_refl) Inv); [| |exact H].
+      - intros n g G; discriminate.
+      - intros pre def m1 m2 Hi Hin Hs. cbn beta iota in Hs.
+        destruct (negb (type_known E (vd_type def))); try discriminate.
+        assert (Ext : forall c, conforms E c (vd_type def) = true -> Inv (pre ++ [def]) (mset (vd_name def) c m1)).
+        { intros c Hcf n g G. rewrite aget_mset in G. destruct (bytes_eqb n (vd_name def)) eqn:B.
+          - apply bytes_eqb_eq in B. inversion G; subst. exists def. split; [apply in_or_app; right; left; auto|auto].
+          - destruct (Hi _ _ G) as (d0 & H0 & H1 & H2). exists d0. split; [apply in_or_app; auto|auto]. }
+        destruct (aget (vd_name def) raw) as [value|] eqn:R.
+        + destruct (coerce_var_value fx E dt value (vd_type def) true) eqn:C; inversion Hs; subst.
+          apply Ext. apply aget_In in R. apply (var_value_ok fx E dt HE value (Hr _ R) _ _ _ C).
+        + destruct (vd_default def) as [dflt|] eqn:D.
+          * destruct (coerce_literal fx E dt [] dflt (vd_type def) true) eqn:C; inversion Hs; subst.
+            apply Ext.
+            assert (V0 : vv_ok E defs []) by (intros n g G; discriminate).
+            apply (literal_conf fx E dt HE Hfix Hio defs [] V0 dflt _ _ _ false C).
+            apply closed_usage_ok. eapply Hc; eauto.
+          * destruct (is_nonnull (vd_type def)); inversion Hs; subst.
+            intros n g G. destruct (Hi _ _ G) as (d0 & H0 & H1 & H2). exists d0. split; [apply in_or_app; auto|auto]. }
+    intros n g G. destruct (I _ _ G) as (def & Hin & Hn & Hcf). exists def. split; auto.
+    subst n. apply find_def_nodup; auto.
+  Qed.
+
+  (** the outcome of one argument, as CoerceArgumentValues computes it: the declared default, a
+      literal coercion of what the document says, or nothing *)
+  Ltac lit_arg H d :=
+    let C := fresh "C" in
+    right; left; destruct (in_default d); rewrite andb_false_r in H; cbn iota in H;
+    match type of H with context [coerce_literal ?a ?b ?c ?v ?l ?t true] =>
+      destruct (coerce_literal a b c v l t true) eqn:C; inversion H; subst;
+      exists l; eexists; split; [reflexivity|split; [exact C|reflexivity]] end.
+
+  Lemma arg_step_cases av vv coerced aname d m2 :
+    arg_step fx E dt av vv (Ok coerced) (aname, d) = Ok m2 ->
+    (exists dv, in_default d = Some dv /\ m2 = mset aname (default_value dv) coerced)
+    \/ (exists l c, aget aname av = Some l /\ coerce_literal fx E dt vv l (in_type d) true = Ok c /\ m2 = mset aname c coerced)
+    \/ (m2 = coerced /\ is_nonnull (in_type d) = false /\ in_default d = None).
+  Proof.
+    intro H. cbn [arg_step] in H. cbv zeta in H.
+    destruct (aget aname av) as [l|] eqn:G.
+    - destruct l as [vn| | | | | | | |]; [ | lit_arg H d .. ].
+      (* a variable as the whole argument *)
+      destruct (ahas vn vv) eqn:Hv.
+      + right; left. unfold ahas in Hv. destruct (aget vn vv) as [value|] eqn:Gv; try discriminate.
+        exists (LVar vn), value. split; auto. rewrite cl_eq, Gv.
+        destruct (in_default d); rewrite andb_false_r in H; cbn iota in H;
+          (destruct (fix_null_var fx && is_nil value && is_nonnull (in_type d)); inversion H; subst; auto).
+      + destruct (in_default d) as [dv|] eqn:D.
+        * left. inversion H; subst. eauto.
+        * right; right. rewrite andb_true_r in H. destruct (is_nonnull (in_type d)); inversion H; subst; auto.
+    - destruct (in_default d) as [dv|] eqn:D.
+      + left. inversion H; subst. eauto.
+      + right; right. rewrite andb_true_r in H. destruct (is_nonnull (in_type d)); inversion H; subst; auto.
+  Qed.
+
+  Theorem argument_values_conform site argdefs defs args vv m :
+    has_dup (map fst argdefs) = false ->
+    (forall ad, In ad argdefs -> default_ok E (snd ad) = true) ->
+    static_ok fx E dt site argdefs defs args = true ->
+    vv_ok E defs vv ->
+    coerce_argument_values fx E dt argdefs args vv = Ok m ->
+    args_conform_b E argdefs m = true.
+  Proof.
+    intros Hd Hdef St Hvv H. unfold coerce_argument_values in H.
+    set (av := fold_left (fun m (a : name * lit) => mset (fst a) (snd a) m) args []) in H.
+    (* what validation established for each argument literal *)
+    assert (Us : forall aname l d, aget aname av = Some l -> In (aname, d) argdefs ->
+                                   usage_ok fx E defs l (Some (in_type d)) (arg_loc_default site d) = true).
+    { intros aname l d G Hin. apply aget_fold_mset in G as [G|G]; [|discriminate].
+      unfold static_ok in St. repeat (apply andb_true_iff in St as [St ?]).
+      match goal with U : forallb (fun a => match aget (fst a) argdefs with Some d => usage_ok _ _ _ _ _ _ | None => false end) args = true |- _ =>
+        rewrite forallb_forall in U; specialize (U _ G); simpl in U;
+        rewrite (nodup_aget argdefs aname d) in U; [exact U|rewrite dup_names_has_dup; auto|auto] end. }
+    set (Inv := fun (done : list (name * in_def)) (m : list (name * gval)) =>
+                  (forall p, In p m -> exists ad, In ad done /\ fst ad = fst p) /\
+                  (forall ad, In ad done ->
+                              match aget (fst ad) m with
+                              | Some g => conforms E g (in_type (snd ad)) = true
+                              | None => is_nonnull (in_type (snd ad)) = false /\ in_default (snd ad) = None
+                              end)).
+    assert (I : Inv ([] ++ argdefs) m).
+    { eapply (fold_res_inv2 _ (fun _ => eq_refl) (fun _ => eq_refl) Inv); [| |exact H].
+      - split; [intros p []|intros ad []].
+      - intros pre [aname d] suf m1 m2 Heq [K V] Hs. simpl in Heq.
+        assert (Hin : In (aname, d) argdefs) by (rewrite Heq; apply in_or_app; right; left; auto).
+        (* the names already done are different from this one, so it is not yet in the map *)
+        assert (Fresh : forall y, In y pre -> fst y <> aname).
+        { rewrite Heq in Hd. intros y Hy. apply (nodup_prefix _ _ _ Hd y Hy). }
+        assert (G0 : aget aname m1 = None).
+        { destruct (aget aname m1) eqn:G; auto. apply aget_In in G. destruct (K _ G) as (ad & Ha & Hb).
+          exfalso. apply (Fresh ad Ha). exact Hb. }
+        assert (Store : forall c, conforms E c (in_type d) = true -> Inv (pre ++ [(aname, d)]) (mset aname c m1)).
+        { intros c Hc. split.
+          - intros p Hp. apply In_mset in Hp as [->|Hp].
+            + exists (aname, d). split; [apply in_or_app; right; left; auto|auto].
+            + destruct (K _ Hp) as (ad & Ha & Hb). exists ad. split; [apply in_or_app; auto|auto].
+          - intros ad Ha. apply in_app_or in Ha as [Ha|[<-|[]]].
+            + rewrite aget_mset_other; [apply V; auto|]. intro X. apply (Fresh ad Ha). auto.
+            + simpl. rewrite aget_mset_same. exact Hc. }
+        apply arg_step_cases in Hs as [(dv & D & ->)|[(l & c & G & C & ->)|(-> & N & D)]].
+        + apply Store. specialize (Hdef _ Hin). unfold default_ok in Hdef. simpl in Hdef. rewrite D in Hdef.
+          rewrite default_value_ref. exact Hdef.
+        + apply Store.
+          apply (literal_conf fx E dt HE Hfix Hio defs vv Hvv l _ _ _ _ C (Us _ _ _ G Hin)).
+        + split.
+          * intros p Hp. destruct (K _ Hp) as (ad & Ha & Hb). exists ad. split; [apply in_or_app; auto|auto].
+          * intros ad Ha. apply in_app_or in Ha as [Ha|[<-|[]]]; [apply V; auto|]. simpl. rewrite G0. auto. }
+    destruct I as [K V]. simpl in K, V. unfold args_conform_b. apply andb_true_iff. split.
+    - apply forallb_forall. intros [k g] Hp. destruct (K _ Hp) as ([k' d] & Ha & Hb). simpl in *. subst.
+      eapply In_ahas; eauto.
+    - apply forallb_forall. intros ad Ha. specialize (V _ Ha).
+      destruct (aget (fst ad) m); auto. destruct V as [-> ->]. reflexivity.
+  Qed.
+End TopLevel.
+
+(** ** the stage-1/stage-2 conformance theorem on the whole request, and how to read [conforms] *)
+Section Requests.
+  Variable E : env.
+  Variable dt : bytes -> option bytes.
+
+  Definition schema_ok (argdefs : list (name * in_def)) : Prop :=
+    env_ok E = true /\ has_dup (map fst argdefs) = false /\
+    forall ad, In ad argdefs -> default_ok E (snd ad) = true.
+
+  Definition request_ok (defs : list vardef) (raw : list (name * jval)) : Prop :=
+    (forall def dflt, In def defs -> vd_default def = Some dflt -> lit_vars dflt = []) /\
+    (forall p, In p raw -> jval_ok (snd p) = true).
+
+  Lemma static_ok_vardefs fx site argdefs defs args :
+    static_ok fx E dt site argdefs defs args = true -> has_dup (map vd_name defs) = false.
+  Proof.
+    unfold static_ok. intro St. repeat (apply andb_true_iff in St as [St ?]).
+    match goal with X : negb (has_dup (map vd_name defs)) = true |- _ => apply negb_true_iff in X; exact X end.
+  Qed.
+
+  Theorem args_conform site argdefs defs args raw vv m :
+    schema_ok argdefs -> request_ok defs raw ->
+    static_ok all_fixed E dt site argdefs defs args = true ->
+    coerce_variable_values all_fixed E dt defs raw = Ok vv ->
+    coerce_argument_values all_fixed E dt argdefs args vv = Ok m ->
+    args_conform_b E argdefs m = true.
+  Proof.
+    intros (HE & Hd & Hdef) (Hc & Hr) St Hv Ha.
+    eapply (argument_values_conform all_fixed E dt HE eq_refl eq_refl); eauto.
+    eapply (variable_values_ok all_fixed E dt HE eq_refl eq_refl); eauto.
+    eapply static_ok_vardefs; eauto.
+  Qed.
+
+  Corollary called_args_conform site argdefs defs args raw m :
+    schema_ok argdefs -> request_ok defs raw ->
+    run_request all_fixed E dt site argdefs defs args raw = OCalled m ->
+    args_conform_b E argdefs m = true.
+  Proof.
+    intros Hs Hr H. unfold run_request in H.
+    destruct (static_ok all_fixed E dt site argdefs defs args) eqn:St; simpl in H; try discriminate.
+    destruct (coerce_variable_values all_fixed E dt defs raw) as [vv| |] eqn:Hv; try discriminate.
+    destruct (coerce_argument_values all_fixed E dt argdefs args vv) as [m'| |] eqn:Ha; inversion H; subst.
+    eapply args_conform; eauto.
+  Qed.
+
+  Corollary cost_args_conform site argdefs defs args raw m :
+    schema_ok argdefs -> request_ok defs raw ->
+    In m (cost_observation all_fixed E dt site argdefs defs args raw) ->
+    args_conform_b E argdefs m = true.
+  Proof.
+    intros Hs Hr H. unfold cost_observation in H. simpl in H.
+    destruct (static_ok all_fixed E dt site argdefs defs args) eqn:St; simpl in H; try contradiction.
+    destruct (coerce_variable_values all_fixed E dt defs raw) as [vv| |] eqn:Hv; try contradiction.
+    destruct (coerce_argument_values all_fixed E dt argdefs args vv) as [m'| |] eqn:Ha; try contradiction.
+    destruct H as [<-|[]]. eapply args_conform; eauto.
+  Qed.
+
+  (** per argument *)
+  Lemma args_conform_b_arg argdefs m a d :
+    args_conform_b E argdefs m = true -> In (a, d) argdefs ->
+    match aget a m with
+    | Some g => conforms E g (in_type d) = true
+    | None => is_nonnull (in_type d) = false /\ in_default d = None
+    end.
+  Proof.
+    unfold args_conform_b. intros H Hin. apply andb_true_iff in H as [_ H].
+    rewrite forallb_forall in H. specialize (H _ Hin). simpl in H.
+    destruct (aget a m); auto. apply andb_true_iff in H as [H1 H2].
+    apply negb_true_iff in H1. destruct (in_default d); try discriminate. auto.
+  Qed.
+
+  (** how to read [conforms]: never null at a non-null type *)
+  Lemma conforms_nonnull_not_nil g t : conforms E g (StNonNull t) = true -> g <> GNil /\ conforms E g t = true.
+  Proof.
+    intro H. rewrite conforms_eq in H. destruct g; try (split; [discriminate|exact H]). discriminate.
+  Qed.
+
+  (** always a list at a list type (or null, when nullable) *)
+  Lemma conforms_list_is_list g t : conforms E g (StList t) = true ->
+    g = GNil \/ exists items, g = GList items /\ Forall (fun x => conforms E x t = true) items.
+  Proof.
+    intro H. rewrite conforms_eq in H. destruct g; try discriminate; auto.
+    right. exists vs. split; auto. apply Forall_forall. rewrite forallb_forall in H. exact H.
+  Qed.
+
+  (** a declared value at an enum type *)
+  Lemma conforms_enum_declared g n vals : aget n E = Some (TEnum vals) -> conforms E g (StNamed n) = true ->
+    g = GNil \/ exists x v, In (x, v) vals /\ gval_eqb v g = true.
+  Proof.
+    intros Hn H. rewrite conforms_eq, Hn in H. destruct g; auto; right;
+      apply existsb_exists in H as ([x v] & Hin & Heq); exists x, v; auto.
+  Qed.
+
+  (** a complete field map at an input object type (wrapped by the InputCoercion hook if any) *)
+  Lemma conforms_object_complete g n fields h : aget n E = Some (TInput fields h) -> conforms E g (StNamed n) = true ->
+    g = GNil \/
+    exists kvs, (g = GMap kvs \/ exists tag, g = GTagged tag (GMap kvs)) /\
+                keys_sorted kvs = true /\
+                (forall k x, In (k, x) kvs -> exists fd, aget k fields = Some fd /\ conforms E x (in_type fd) = true) /\
+                (forall f fd, In (f, fd) fields -> ahas f kvs = true \/ (is_nonnull (in_type fd) = false /\ in_default fd = None)).
+  Proof.
+    intros Hn H. rewrite conforms_eq, Hn in H.
+    assert (M : forall kvs, map_ok (conforms E) fields kvs = true ->
+                keys_sorted kvs = true /\
+                (forall k x, In (k, x) kvs -> exists fd, aget k fields = Some fd /\ conforms E x (in_type fd) = true) /\
+                (forall f fd, In (f, fd) fields -> ahas f kvs = true \/ (is_nonnull (in_type fd) = false /\ in_default fd = None))).
+    { intros kvs Hm. unfold map_ok in Hm. apply andb_true_iff in Hm as [Hm P]. apply andb_true_iff in Hm as [S En].
+      split; auto. split.
+      - clear S P. induction kvs as [|[k' x'] r IH]; intros k x []; simpl in En; apply andb_true_iff in En as [E1 E2].
+        + inversion H0; subst. destruct (aget k fields) as [fd|]; try discriminate. eauto.
+        + eapply IH; eauto.
+      - intros f fd Hin. rewrite forallb_forall in P. specialize (P _ Hin). unfold field_present in P. simpl in P.
+        apply orb_true_iff in P as [P|P]; auto. right. apply andb_true_iff in P as [P1 P2].
+        apply negb_true_iff in P1. destruct (in_default fd); try discriminate. auto. }
+    destruct g; auto; right; destruct h; try discriminate.
+    - exists kvs. split; auto.
+    - destruct g; try discriminate. apply andb_true_iff in H as [_ H]. exists kvs. split; eauto.
+  Qed.
+End Requests.
+
+(** ** the repaired defects, as refutations of the same statements on the pinned code *)
+Definition n_x : name := [120]%N.
+Definition n_s : name := [115]%N.
+Definition n_Boolean : name := [66; 111; 111; 108; 101; 97; 110]%N.
+Definition n_Int : name := [73; 110; 116]%N.
+Definition E0 : env := [(n_Boolean, TScalar KBoolean); (n_Int, TScalar KInt)].
+Definition dt0 : bytes -> option bytes := fun _ => None.
+
+(** defect 5: query($s: Boolean = true) { f(x: $s) } with x: Boolean! and variables {"s": null} *)
+Lemma args_conform_refuted_before_fix :
+  exists argdefs defs args raw m,
+    schema_ok E0 argdefs /\ request_ok defs raw /\
+    run_request pinned E0 dt0 true argdefs defs args raw = OCalled m /\
+    args_conform_b E0 argdefs m = false.
+Proof.
+  exists [(n_x, {| in_type := StNonNull (StNamed n_Boolean); in_default := None |})],
+         [{| vd_name := n_s; vd_type := StNamed n_Boolean; vd_default := Some (LBool true) |}],
+         [(n_x, LVar n_s)], [(n_s, JNull)], [(n_x, GNil)].
+  split; [|split; [|split]].
+  - split; [reflexivity|split; [reflexivity|]]. intros ad [<-|[]]; reflexivity.
+  - split.
+    + intros def dflt [<-|[]] H; inversion H; reflexivity.
+    + intros p [<-|[]]; reflexivity.
+  - vm_compute; reflexivity.
+  - vm_compute; reflexivity.
+Qed.
+
+(** the cost function saw the arguments of documents the standard rules reject:
+    query($s: Boolean) { f(x: $s) } with x: Boolean! and {"s": null} *)
+Lemma cost_args_conform_refuted_before_fix :
+  exists argdefs defs args raw m,
+    schema_ok E0 argdefs /\ request_ok defs raw /\
+    static_ok pinned E0 dt0 true argdefs defs args = false /\
+    In m (cost_observation pinned E0 dt0 true argdefs defs args raw) /\
+    args_conform_b E0 argdefs m = false.
+Proof.
+  exists [(n_x, {| in_type := StNonNull (StNamed n_Boolean); in_default := None |})],
+         [{| vd_name := n_s; vd_type := StNamed n_Boolean; vd_default := None |}],
+         [(n_x, LVar n_s)], [(n_s, JNull)], [(n_x, GNil)].
+  split; [|split; [|split; [|split]]].
+  - split; [reflexivity|split; [reflexivity|]]. intros ad [<-|[]]; reflexivity.
+  - split.
+    + intros def dflt [<-|[]] H; inversion H.
+    + intros p [<-|[]]; reflexivity.
+  - vm_compute; reflexivity.
+  - vm_compute. left; reflexivity.
+  - vm_compute; reflexivity.
+Qed.
